@@ -41,6 +41,7 @@ def cases(draw):
     if all(calls):
         calls.append(False)
     case['calls'] = calls
+    case['damage'] = draw(st.sampled_from([0, 0, 1, 2, 3]))
     return case
 
 
@@ -111,6 +112,29 @@ def eval_case(case, rec):
                 raise Violation('dry-run-wrote-files', dict(info, call=ci))
             if tree_digest(src) != before:
                 raise Violation('source-modified', dict(info, call=ci))
+        # an out-of-sync target (e.g. a copy that was cut short): a DRY invocation may complain but changes nothing
+        if case.get('damage') and target_after_first_real:
+            victims = sorted({model.location(mt_par[n]) for n in S if mt_par[n].kind not in DIR_KINDS + ('frame', 'memory')})
+            victims = [p for p in victims if (tgt / p).is_file() and (tgt / p).stat().st_size > 1]
+            if victims:
+                vp = tgt / victims[case['damage'] % len(victims)]
+                original = vp.read_bytes()
+                vp.write_bytes(original[:len(original) // 2])
+                damaged = tree_digest(tgt)
+                try:
+                    with hyp.quiet_output():
+                        config = build.make_config(case, src, w.cfgdir)
+                        migrate_to_parameter_mode(config, tgt, dry=True, verbose=False)
+                except (Exception, AssertionError):
+                    pass  # the library's size assertion: an accepted answer to an out-of-sync target
+                now = tree_digest(tgt)
+                if {p: h for p, h in now.items() if h[0] != 'dir'} != {p: h for p, h in damaged.items() if h[0] != 'dir'}:
+                    raise Violation('dry-run-modified-target', dict(info, damaged=str(vp.relative_to(tgt))))
+                if tree_digest(src) != before:
+                    raise Violation('source-modified', dict(info, call='dry after damage'))
+                vp.write_bytes(original)
+                RT.log.clear()
+                case['_damaged'] = True
         # the parameter-mode chain on the target
         try:
             with hyp.quiet_output():
@@ -162,6 +186,8 @@ def eval_case(case, rec):
             cl.append('root:file#part' if case.get('root_part_style') != 'arg' else 'root:part-argument')
         elif any(f.get('parts') for f in case['files']):
             cl.append('multi-config')
+        if case.pop('_damaged', False):
+            cl.append('dry-call-on-out-of-sync-target')
         if case.get('global_vars'):
             cl.append('global_vars')
         if any(t.ns for t in mt_name.values()):
